@@ -103,6 +103,7 @@ type verifyCtx struct {
 	modFields []modField
 	modElems  []modElem
 	modAll    bool
+	callOrd   map[ssa.Instruction]int
 }
 
 type loopInfo struct {
@@ -157,6 +158,13 @@ func (e *Engine) AddContracts(f *contract.File) error {
 	for _, l := range f.Lemmas {
 		e.Lemmas = append(e.Lemmas, l)
 		e.LemmaPkg[l] = f.Pkg
+		// a lemma is usable as a predicate over its parameters (instances are assumed via "use")
+		p := &contract.Pred{Name: l.Name, Body: l.Expr}
+		for _, prm := range l.Params {
+			p.Params = append(p.Params, strings.Fields(prm)[0])
+		}
+		e.Preds[f.Pkg+"."+l.Name] = p
+		e.Preds[l.Name] = p
 	}
 	for _, fc := range f.Funcs {
 		if strings.HasPrefix(fc.Key, "iface ") {
